@@ -15,12 +15,14 @@ def handle (line : String) : String :=
     | none => "bad-op"
   | ["dec", nilFlag, data, key, iv] => match ofHex data, ofHex key, ofHex iv with
     | some data, some key, some iv =>
+      if key.length == 16 || key.length == 24 then "unsupported-key-size" else
       match decryptAnswer P data key iv (nilFlag == "nil") with
       | .ok r => "ok " ++ showOpt r
       | .error e => "err " ++ e.tag
     | _, _, _ => "bad-op"
   | ["enc", rnd, answer, key, iv] => match ofHex rnd, ofHex answer, ofHex key, ofHex iv with
     | some rnd, some answer, some key, some iv =>
+      if key.length == 16 || key.length == 24 then "unsupported-key-size" else
       match encryptAnswer P rnd answer key iv with
       | .ok r => "ok " ++ toHex r
       | .error e => "err " ++ e.tag
